@@ -199,64 +199,67 @@ def lzxHeaderCrc (fixed name comment : Bytes) : Nat :=
 
 def lzxGate (out : Bytes) (stored : Nat) : Bool := stored == (crc32A out 0).toNat
 
+/-- `lzx_check_entry`: the updated merge record, and whether the entry's data is to be extracted
+    now (return 0) or skipped (return −1).  `bad` = the "unsupported or junk" filter (header CRC
+    mismatch, sizes, version, method, excluded name). -/
+def lzxCheckEntry (limit : Nat) (mg : LzxMerge) (bad : Bool) (usize csize method flags dcrc : Nat) :
+    LzxMerge × Bool :=
+  let mg := if bad then { mg with invalid := true } else mg
+  let selectable := !bad && usize != 0
+  if flags &&& 1 != 0 then
+    -- a fresh merge forgets `invalid` (the C sets merge_invalid before lzx_reset_merge clears it)
+    let mg := if !mg.inMerge then ({ inMerge := true } : LzxMerge) else mg
+    let bad2 := mg.invalid || method != 2 || mg.total + usize > limit
+    let mg := if bad2 then { mg with invalid := true } else mg
+    let selectable := selectable && !bad2
+    let mg := if selectable && mg.sel.isNone then { mg with sel := some (mg.total, usize, dcrc) } else mg
+    let mg := { mg with total := mg.total + usize }
+    if csize != 0 then
+      let mg := { mg with inMerge := false }
+      (mg, mg.sel.isSome && !mg.invalid)
+    else (mg, false)
+  else
+    if selectable then ({ sel := some (0, usize, dcrc), total := usize }, true) else ({}, false)
+
+/-- the extraction tail of `lzx_read` -/
+def lzxExtract (env : LzxEnv) (f : Bytes) (dpos csize method : Nat) (mg : LzxMerge) : Option Bytes :=
+  match mg.sel with
+  | none => none
+  | some (sofs, ssize, scrc) =>
+    if f.length < dpos + csize then none else
+    let inp := slice f dpos csize
+    let out? := if method != 0 then env.unpack method inp mg.total else some inp
+    match out? with
+    | none => none
+    | some out =>
+      let out := if ssize < out.length then
+          (if sofs != 0 && sofs ≤ out.length - ssize then slice out sofs ssize else out.take ssize)
+        else out
+      if lzxGate out scrc then some out else none
+
+/-- the "unsupported or junk" filter of `lzx_check_entry` for the entry at `pos`:
+    header CRC mismatch, sizes, extract version, method, excluded name -/
+def lzxEntryBad (env : LzxEnv) (f : Bytes) (pos : Nat) : Bool :=
+  let nlen := u8 f (pos + 30)
+  let name := slice f (pos + 31) nlen
+  let comment := slice f (pos + 31 + nlen) (u8 f (pos + 14))
+  le32 f (pos + 26) != lzxHeaderCrc (slice f pos 31) name comment || le32 f (pos + 6) ≥ f.length
+    || le32 f (pos + 2) > env.limit || u8 f (pos + 15) > 0x0a
+    || !lzxSupported (u8 f (pos + 11)) || env.excl (cstr name)
+
 /-- `lzx_read` entry loop (`fuel`: every entry consumes ≥ 31 bytes). -/
 def lzxLoop (env : LzxEnv) (f : Bytes) : Nat → Nat → LzxMerge → Option Bytes
   | 0, _, _ => none
   | fuel + 1, pos, mg =>
     if f.length < pos + 31 then none else
-    let usize := le32 f (pos + 2)
     let csize := le32 f (pos + 6)
     let method := u8 f (pos + 11)
-    let flags := u8 f (pos + 12)
-    let clen := u8 f (pos + 14)
-    let xver := u8 f (pos + 15)
-    let dcrc := le32 f (pos + 22)
-    let hcrc := le32 f (pos + 26)
-    let nlen := u8 f (pos + 30)
-    if f.length < pos + 31 + nlen + clen then none else
-    let name := slice f (pos + 31) nlen
-    let comment := slice f (pos + 31 + nlen) clen
-    let dpos := pos + 31 + nlen + clen
-    let computed := lzxHeaderCrc (slice f pos 31) name comment
-    -- lzx_check_entry
-    let bad := hcrc != computed || csize ≥ f.length || usize > env.limit || xver > 0x0a
-                || !lzxSupported method || env.excl (cstr name)
-    let mg := if bad then { mg with invalid := true } else mg
-    let selectable := !bad && usize != 0
-    if flags &&& 1 != 0 then
-      let mg := if !mg.inMerge then ({ inMerge := true } : LzxMerge) else mg
-      -- (a fresh merge forgets `invalid`; the C sets merge_invalid before the reset, so it is lost too)
-      let bad2 := mg.invalid || method != 2 || mg.total + usize > env.limit
-      let mg := if bad2 then { mg with invalid := true } else mg
-      let selectable := selectable && !bad2
-      let mg := if selectable && mg.sel.isNone then { mg with sel := some (mg.total, usize, dcrc) } else mg
-      let mg := { mg with total := mg.total + usize }
-      if csize != 0 then
-        let mg := { mg with inMerge := false }
-        if mg.sel.isSome && !mg.invalid then lzxExtract env f dpos csize method mg
-        else lzxLoop env f fuel (dpos + csize) mg
-      else lzxLoop env f fuel dpos mg
-    else
-      let mg : LzxMerge := {}
-      if selectable then
-        lzxExtract env f dpos csize method { mg with sel := some (0, usize, dcrc), total := usize }
-      else lzxLoop env f fuel (dpos + csize) mg
-where
-  /-- the extraction tail of `lzx_read` -/
-  lzxExtract (env : LzxEnv) (f : Bytes) (dpos csize method : Nat) (mg : LzxMerge) : Option Bytes :=
-    match mg.sel with
-    | none => none
-    | some (sofs, ssize, scrc) =>
-      if f.length < dpos + csize then none else
-      let inp := slice f dpos csize
-      let out? := if method != 0 then env.unpack method inp mg.total else some inp
-      match out? with
-      | none => none
-      | some out =>
-        let out := if ssize < out.length then
-            (if sofs != 0 && sofs ≤ out.length - ssize then slice out sofs ssize else out.take ssize)
-          else out
-        if lzxGate out scrc then some out else none
+    let dpos := pos + 31 + u8 f (pos + 30) + u8 f (pos + 14)
+    if f.length < dpos then none else
+    let r := lzxCheckEntry env.limit mg (lzxEntryBad env f pos) (le32 f (pos + 2)) csize method (u8 f (pos + 12))
+                (le32 f (pos + 22))
+    if r.2 then lzxExtract env f dpos csize method r.1
+    else lzxLoop env f fuel (dpos + csize) r.1
 
 def lzxDepack (env : LzxEnv) (f : Bytes) : Option Bytes :=
   if f.length < 10 then none else
@@ -299,10 +302,16 @@ def zipExtract (inflate : Bytes → Nat → Option Bytes) (junk : Bytes) (st : Z
 
 /-! ## bzip2 (bunzip2.c) -/
 
-/-- `write_bunzip_data` over the decoded blocks `(headerCRC, bytes)` followed by the
-    end-of-stream header carrying `streamCrc`, then the test in `decrunch_bzip2`. -/
+/-- `write_bunzip_data(bd, bw, out, 0, 0)` over the decoded blocks `(headerCRC, bytes)` followed
+    by the end-of-stream header carrying `streamCrc`, then the test in `decrunch_bzip2`.
+
+    As the code is: when `read_bunzip_data` meets the end-of-stream header, `write_bunzip_data`
+    sets `writeCount = RETVAL_LAST_BLOCK` and **returns `gotcount` (= 0 in file mode)**, so
+    `decrunch_bzip2`'s `if (i == RETVAL_LAST_BLOCK) { headerCRC == totalCRC ? … }` is not reached on
+    this path: the stored stream CRC is read but never compared.  `RETVAL_LAST_BLOCK` is only
+    returned after a block CRC mismatch (with `totalCRC` forced to `headerCRC + 1`). -/
 def bzRun (total : BitVec 32) (acc : Bytes) : List (BitVec 32 × Bytes) → BitVec 32 → Option Bytes
-  | [], streamCrc => if streamCrc = total then some acc else none
+  | [], _streamCrc => some acc
   | (hc, d) :: rest, streamCrc =>
     let dc := bzBlockCrc d
     if dc ≠ hc then
